@@ -128,7 +128,9 @@ Proof.
   destruct (IH H) as (x & Hx & Hf). exists x. split; [right; assumption|assumption].
 Qed.
 
-(* PARTIAL.  Proved: a segment that runs through the interior of P, has no endpoint strictly inside P and is not
+(* PARTIAL (closed in Avoid/BlockingComplete.v: degenerate_chord_exact, blocked_complete, boundary_vertices_iff; the
+   converse - blocked implies through the interior - is Avoid/BlockingSound.v).
+   Proved here: a segment that runs through the interior of P, has no endpoint strictly inside P and is not
    classified `degenerate_chord` (SegPolyModel: "no edge of P is properly crossed") is blocked - by both loops.
    Missing for the full geometric statement: that for a convex P "no edge is properly crossed by a segment through the
    interior with endpoints outside" is the same as "the segment meets the boundary only at vertices of P and/or at its
